@@ -40,7 +40,7 @@ def urls_from_text(string):
         stop = len(url) - 1
         i = stop
 
-        while i != 0 and url[i] in IRRELEVANT_PUNCTUATION and url[i] != last_punct:
+        while i > 0 and url[i] in IRRELEVANT_PUNCTUATION and url[i] != last_punct:
             last_punct = url[i]
             i -= 1
 
